@@ -31,7 +31,8 @@ PLAN = {"quick": {"cases": 1500}, "thorough": {"cases": 20000}}
 
 HEADERS = [["", "", ""], ["benzene - a ring", "  -ISIS-  0927261200", "comment ending with dash-"], ["M  V30 x-", "  prog", "M  END"], ["x" * 79, "y" * 79, "z" * 79],
            ["M  V30 BEGIN CTAB", "M  V30 COUNTS 9 9 0 0 0", "  0  0  0     0  0            999 V2000"], ["$$$$", "> <x>", "V3000"],
-           ["bond lengths in \u00c5", "  r(C\u2013O) = 1.43 \u00c5, T = 100 K", "\u0105\u0445\u03c5 \u2160\u2164 \u6f22\u5b57 \u00e9\u00b5\u00b0"], ["converted from V3000", "", "format: V2000"]]
+           ["bond lengths in \u00c5", "  r(C\u2013O) = 1.43 \u00c5, T = 100 K", "\u0105\u0445\u03c5 \u2160\u2164 \u6f22\u5b57 \u00e9\u00b5\u00b0"], ["converted from V3000", "", "format: V2000"],
+           ["2,2':6',2\"-terpyridine", "  it's \\ a \"name", "5'-O-(4,4'-dimethoxytrityl) `x` $HOME #! %s {0}"]]
 
 
 def pipeline_text(text, via_file=None):
@@ -121,7 +122,7 @@ def vary(mol: Mol, dim: str, rng):
         m.bonds = [(i, j, t if 1 <= t <= 8 else 1) for i, j, t in m.bonds]  # V2000 bond types are 1..8 (non-identity data)
         for a in m.atoms:  # make it representable without touching identity data
             a.x, a.y, a.z = round(a.x, 4), round(a.y, 4), round(a.z, 4)
-        st2 = V2Style(encoding="lines", dt_symbols=rng.random() < 0.5)
+        st2 = V2Style(encoding="lines", dt_symbols=rng.random() < 0.5, counts_noise=(dim == "v2000_format"))
         if dim == "v2000_format":
             st2.header = rng.choice(HEADERS)
             st2.eol = rng.choice(["\n", "\r\n"])
